@@ -241,12 +241,13 @@ Theorem other_objects_untouched mpi junk w o w1 out k :
   (match o with
    | OSetType k' _ | OGetType k' | OSetEager k' _ | OGetEager k' | OSetStats k' _ | OGetStats k' | OGetComm k'
    | OSetWidths k' _ _ _ | OGetWidths k' _ _ _ _ _ _ | OSetNr k' _ | OGetNr k' | OSetPk k' _ | OGetPk k'
-   | OSetCb k' _ _ | OGetCb k' | ONew k' _ | ODestroy k' => k' <> k
+   | OSetCb k' _ _ | OGetCb k' | ONew k' _ | ODestroy k' | OUse k' _ _ | OUseV k' _ => k' <> k
    | _ => True end) ->
   obj w1 k = obj w k.
 Proof.
   intros H N. destruct o; cbn [step] in H;
     try (match type of H with context [supports_type ?t || ?b] => destruct (supports_type t || b); [|discriminate] end);
+    try (match type of H with (if ?c then on_obj _ _ _ else None) = _ => destruct c; [|discriminate] end);
     try (start H; unfold obj; cbn [w_objs with_objs]; apply find_update_other; intro X; apply N; symmetry; exact X).
   - destruct (find k0 (w_objs w)); [discriminate|]. destruct (supports_type (w_type_default w)); [|discriminate].
     injection H as <- _. unfold obj; cbn [w_objs with_objs]. apply find_update_other. intro X; apply N; symmetry; exact X.
@@ -258,6 +259,8 @@ Proof.
   - destruct mpi; injection H as <- _; reflexivity.
   - destruct (sc_options_set_spacing a b). injection H as <- _. reflexivity.
   - destruct (sc_options_set_spacing (-1) (-1)). injection H as <- _. reflexivity.
+  - destruct mpi; [destruct (find comm (w_shmem w))|]; injection H as <- _; reflexivity.
+  - destruct (sc_options_set_spacing a b). injection H as <- _. reflexivity.
 Qed.
 
 (* setting one field of a controller keeps its other fields; getters change nothing *)
